@@ -70,7 +70,7 @@ def make_options(m, o):
                              dcls=o.get('dcls') or None, defs=o.get('defs') or None,
                              extr=o.get('extr') or None, seqs=bool(o.get('seqs')),
                              nosp=bool(o.get('nosp')), repl=o.get('repl') or None,
-                             unkn=bool(o.get('unkn')), char=True)
+                             unkn=bool(o.get('unkn')), char=True, **({'ienc': o['ienc']} if o.get('ienc') else {}))
 
 def run_tex2txt(latex, o=None, multi=False, files=None, thresh=None, timeout=10, cap_lines=0):
     """Run tex2txt; capture final token list, unknowns, extracted flows, stderr."""
